@@ -154,7 +154,7 @@ def emit(f, files):
     if f.get("shared"):
         head.append('<%%namespace name="shared" file="%s" inheritable="True"/>' % f["shared"][1])
     body.append("{F:%s cv=${cv}%s " % (p, " pa=${pa}" if f["page"] else ""))
-    body.append("own=${self.tag() if not %r else local.tag()} parentkey=${'parent' in context.keys()} " % bool(f["inherit"] or f.get("base")))
+    body.append("own=${self.tag() if not %r else local.tag()} parentkey=${'parent' in context.keys()} nextkey=${'next' in context.keys()} " % bool(f["inherit"] or f.get("base")))
     for k, (kind, uri, tgt) in enumerate(f["refs"]):
         ns = "n%d" % k
         if kind == "include":
@@ -236,13 +236,15 @@ class Model:
             if kind in ("ns_tag", "ns_body", "ns_inline", "ns_import"):
                 self.resolve(uri, f["path"])
 
-    def body(self, path, pa=None, top_inherits=False, mode="top"):
+    def body(self, path, pa=None, top_inherits=False, mode="top", is_base=False):
         f = self.files[path]
         w = self.out.append
         self.bodied.add(path)
         self.check_namespaces(f)
         w("{F:%s cv=%s%s " % (path, self.cv, (" pa=%s" % pa) if f["page"] else ""))
-        w("own=DEF@%s parentkey=%s " % (path, top_inherits))
+        # `next` exists only in the body of a template that is being rendered as somebody's base: an included or
+        # namespace target, and the inheriting template itself, have no such link
+        w("own=DEF@%s parentkey=%s nextkey=%s " % (path, top_inherits, is_base))
         for kind, uri, tgt in f["refs"]:
             if kind in ("include", "include_args", "include_args_falsy", "api_inc"):
                 t = self.resolve(uri, path)
@@ -316,7 +318,7 @@ class Model:
             saved = getattr(self, "child", None), getattr(self, "child_pa", None)
             self.child, self.child_pa = path, pa
             try:
-                self.body(b, top_inherits=False)  # the base-most template has no parent
+                self.body(b, top_inherits=False, is_base=True)  # the base-most template has no parent
             finally:
                 self.child, self.child_pa = saved
         else:
